@@ -1,5 +1,6 @@
 import TracklibVerif.Model.ObsTime
 import TracklibVerif.Model.ObsTimeG
+import TracklibVerif.Model.ObsTimeZone
 import TracklibVerif.Drv.Util
 /-! Driver handler for C03 (ObsTime). Commands:
   read <ms>                          → y m d H M S ms
@@ -14,7 +15,14 @@ import TracklibVerif.Drv.Util
   addf <7 fields> <sec|min|hour|day> <nb>  → addSec/addMin/addHour/addDay(nb), nb a double; reply as readf
   cmpf <x> <y>                       → lt gt eq le ge ne of readUnixTime(x), readUnixTime(y), then bits of their `-`
   subf <7 fields a> <7 fields b>     → bits of a - b
-  default                            → fields of ObsTime() -/
+  default                            → fields of ObsTime()
+ objects and zones (`Model/ObsTimeZone.lean`, at IEEE doubles):
+  prog <statement> <statement> …     → the outputs of the statements separated by `|`, then `#`, the final objects of the
+                                       store separated by `;` (y m d H M S ms zone), then `#` and the slots of the track.
+     statements: new <7 fields> <zone> | read <x> | add <i> <sec|min|hour|day> <nb> | conv <i> <zone> | copy <i> | rt <i>
+                 | set <i> <field 0..7> <v> | abs <i> | cmp <i> <j> | sub <i> <j> | pz <i> | tz <i> | dow <i>
+                 | trk <i,j,…> | tget | tset <zone> | tconv <zone> | tadd <nb>
+     outputs:    o <obj> | r <bits> <obj> | l <obj>;<obj>… (an <obj> here ends with the bits of its toAbsTime()) | x <bits> | f <six 0/1> <bits a> <bits b> | s <text> | i <int> | u | err:<kind> -/
 namespace TV.Drv.C03
 open TV.ObsTime TV.Drv
 
@@ -100,9 +108,77 @@ def handleF (cmd : String) (args : List String) : Option String :=
   | "default", [] => some (showStampZ defaultZ)
   | _, _ => none
 
+def showObsZ (o : ObsZ) : String := showStampZ o.t ++ " " ++ toString o.zone
+
+/-- a new object: fields, zone, and the bits of its `toAbsTime()` (`err:index` from month 14 on) -/
+def showObjA (o : ObsZ) : String := showObsZ o ++ " " ++ absErr [o.t] (showFloat (toAbsZ o : Float))
+
+def showOut : Out Float → String
+  | .obj o => "o " ++ showObjA o
+  | .absobj a o => "r " ++ showFloat a ++ " " ++ showObjA o
+  | .objs l => "l " ++ joinWith ";" (l.map showObjA)
+  | .scalar x => "x " ++ showFloat x
+  | .cmpo l a b => "f " ++ " ".intercalate (l.map showBool) ++ " " ++ showFloat a ++ " " ++ showFloat b
+  | .str s => "s " ++ s
+  | .int z => "i " ++ toString z
+  | .unit => "u"
+  | .err e => "err:" ++ e
+
+def unit? : String → Option AddUnit
+  | "sec" => some .sec | "min" => some .min | "hour" => some .hour | "day" => some .day | _ => none
+
+/-- the statements of a program; `fuel` bounds the recursion (one statement consumes at least one token) -/
+def parseOps : Nat → List String → Option (List (Op Float))
+  | _, [] => some []
+  | 0, _ => none
+  | f+1, "new" :: rest =>
+    match stampZ? rest with
+    | some (t, z :: rest') => do
+      let z ← z.toInt?
+      let ops ← parseOps f rest'
+      pure (.new t z :: ops)
+    | _ => none
+  | f+1, "read" :: x :: rest => do let x ← float? x; let ops ← parseOps f rest; pure (.read x :: ops)
+  | f+1, "add" :: i :: u :: nb :: rest => do
+    let i ← i.toNat?; let u ← unit? u; let nb ← float? nb; let ops ← parseOps f rest; pure (.add i u nb :: ops)
+  | f+1, "conv" :: i :: z :: rest => do let i ← i.toNat?; let z ← z.toInt?; let ops ← parseOps f rest; pure (.conv i z :: ops)
+  | f+1, "copy" :: i :: rest => do let i ← i.toNat?; let ops ← parseOps f rest; pure (.copy i :: ops)
+  | f+1, "rt" :: i :: rest => do let i ← i.toNat?; let ops ← parseOps f rest; pure (.rt i :: ops)
+  | f+1, "set" :: i :: fl :: v :: rest => do
+    let i ← i.toNat?; let fl ← fl.toNat?; let v ← v.toInt?; let ops ← parseOps f rest
+    if fl > 7 then none else pure (.set i fl v :: ops)
+  | f+1, "abs" :: i :: rest => do let i ← i.toNat?; let ops ← parseOps f rest; pure (.abs i :: ops)
+  | f+1, "cmp" :: i :: j :: rest => do let i ← i.toNat?; let j ← j.toNat?; let ops ← parseOps f rest; pure (.cmp i j :: ops)
+  | f+1, "sub" :: i :: j :: rest => do let i ← i.toNat?; let j ← j.toNat?; let ops ← parseOps f rest; pure (.sub i j :: ops)
+  | f+1, "pz" :: i :: rest => do let i ← i.toNat?; let ops ← parseOps f rest; pure (.pz i :: ops)
+  | f+1, "tz" :: i :: rest => do let i ← i.toNat?; let ops ← parseOps f rest; pure (.tz i :: ops)
+  | f+1, "dow" :: i :: rest => do let i ← i.toNat?; let ops ← parseOps f rest; pure (.dow i :: ops)
+  | f+1, "trk" :: is :: rest => do let is ← natList? is; let ops ← parseOps f rest; pure (.trk is :: ops)
+  | f+1, "tget" :: rest => do let ops ← parseOps f rest; pure (.tget :: ops)
+  | f+1, "tset" :: z :: rest => do let z ← z.toInt?; let ops ← parseOps f rest; pure (.tset z :: ops)
+  | f+1, "tconv" :: z :: rest => do let z ← z.toInt?; let ops ← parseOps f rest; pure (.tconv z :: ops)
+  | f+1, "tadd" :: nb :: rest => do let nb ← float? nb; let ops ← parseOps f rest; pure (.tadd nb :: ops)
+  | _, _ => none
+
+/-- NaN and the infinities: the Python year loop does not end; the driver does not start it -/
+def finiteOp : Op Float → Bool
+  | .read x => !(x.isNaN || x.isInf)
+  | .add _ _ nb => !(nb.isNaN || nb.isInf)
+  | .tadd nb => !(nb.isNaN || nb.isInf)
+  | _ => true
+
+def handleProg (args : List String) : Option String :=
+  match parseOps args.length args with
+  | none => none
+  | some ops =>
+    if !ops.all finiteOp then some "err:nonterm" else
+    let (σ, outs) := run floatTrunc State.empty ops
+    some (joinWith "|" (outs.map showOut) ++ "#" ++ joinWith ";" (σ.store.map showObsZ) ++ "#" ++ showList toString σ.track)
+
 def isF (cmd : String) : Bool := ["readf", "absf", "rtf", "addf", "cmpf", "subf", "default"].contains cmd
 
 def handle (cmd : String) (args : List String) : String :=
+  if cmd == "prog" then (handleProg args).getD "bad-request" else
   if isF cmd then (handleF cmd args).getD "bad-request" else
   match args.mapM String.toNat? with
   | none => "bad-request"
